@@ -123,7 +123,9 @@ def r07_2(chk):
     t = unparse(s.node)
     ok = "if orbit.form != TLE:\n        raise TypeError('Not TLE')".replace("orbit", s.params()[1]) in t and "self.gravity = self.MODEL" in t and "n0 *= 60" in t
     chk.inst("R07.2", f"{s.ref}::initialisation", ok, "TLE-form input required; model constants bound; mean motion per minute" if ok else "changed", loc(s, s.node))
-    chk.floor("R07.2", 11)
+    from ..ownership import shared_class_state
+    shared_class_state(chk, "R07.2", only_modules={BETA})
+    chk.floor("R07.2", 12)
 
 
 def r07_3(chk):
